@@ -948,14 +948,18 @@ func (m *Model) revive(e *ED, t0, t1 time.Time) {
 func (m *Model) fuzzyBySeek(e *ED, t0, t1 time.Time) {
 	e.Fuzzy = true
 	e.BySeek = true
-	if e.State != stOut {
+	if e.State != stOut || e.DLMaybe {
 		e.Round++ // may have been re-opened: whatever it forwarded before is a closed round
+		e.DLMaybe = false
 	}
 	if t0.Before(e.LeaseLo) {
 		e.LeaseLo = t0
 	}
 	if r := t1.Add(e.Sub.Cfg.Retention); r.After(e.RetHi) {
 		e.RetHi = r
+	}
+	if r := t0.Add(e.Sub.Cfg.Retention); r.Before(e.RetLo) {
+		e.RetLo = r // a revival restarts retention with the subscription's current (possibly shorter) value
 	}
 	m.probe("seek_fuzzy")
 }
@@ -998,6 +1002,7 @@ func (m *Model) SeekTime(s *MSub, T time.Time, t0, t1 time.Time) {
 				m.fuzzyBySeek(e, t0, t1)
 			} else if e.DLMaybe {
 				e.DLMaybe = false
+				e.Round++ // if it was dead-lettered, the seek re-opened it: a new round
 				if t0.Add(s.Cfg.Retention).Before(e.RetLo) {
 					e.RetLo = t0.Add(s.Cfg.Retention)
 				}
@@ -1088,7 +1093,6 @@ func (m *Model) SeekSnap(s *MSub, sn *MSnap, t0, t1 time.Time) {
 			if e.Fuzzy {
 				m.fuzzyBySeek(e, t0, t1) // stays unknown in lease terms
 			} else if e.DLMaybe {
-				e.DLMaybe = false
 				m.fuzzyBySeek(e, t0, t1)
 			} else if e.State != stOut {
 				m.revive(e, t0, t1)
